@@ -23,6 +23,7 @@ func main() {
 		dkgcheck.ReplayFile(run, "C08")
 		return
 	}
+	dkgcheck.SizeSweep(run, "C08") // cheap, first: never starved by the exploration budget
 	dkgcheck.Run(run, "C08", dkgcheck.Jobs(run, "C08"))
 	depth := 3
 	dkgcheck.PlainVSS(run, 3, 1, 1, 0, depth)
